@@ -750,6 +750,9 @@ func writeEvidence(id, tier string, seed int, pc *PropCfg, ld *Loaded, ex *Exec,
 	}
 	sort.Strings(used)
 	trusted = append(trusted, used...)
+	for k := range AssumedClauses {
+		trusted = append(trusted, k)
+	}
 	var cbs []string
 	for k := range CallbackAssumptions {
 		cbs = append(cbs, k)
